@@ -1,4 +1,3 @@
-import QcoVerif.Lemmas.BuilderSrc
 import QcoVerif.Properties.C18
 import QcoVerif.Properties.C05
 import QcoVerif.Lemmas.Listing
@@ -293,20 +292,5 @@ example : Commute.SubOk Commute.exBuildS 3 2 0 3 ∧ Commute.exBuildS.identKeys 
 example : ((Commute.exBuildS.operations 0).1.addSub 0 3).1.operations 0 = (Commute.exBuildS.addSub 0 3).1.operations 0 :=
   (listing_then_addSub_partial _ 3 2 0 3 Commute.exBuildS_subOk).2
 
-
-/-! ### tie to the SOURCE TEXT of the builder (DESIGN.md §2.3b; proofs in Lemmas/BuilderSrc.lean)
-
-`decomposed_operations` (the listing).  The functions act on objects: the fragment records such effects (`Py.callEffects`) instead of executing them. -/
-
-section BuilderSourceTie
-open Qco.Py Qco.Gen.PySrc Qco.BuilderSrc
-
-/-- **`decomposed_operations`**: hands the enclosing link to exactly the relation-less nodes (an effect on those operations) and returns the concatenation of the nodes' own decompositions — the step of `World.decomposed`. -/
-theorem decomposed_matches_source (nodes : List (Nat × Bool × List Nat)) :
-    callFn builderEnv Composite_decomposed [compSelf nodes] = nats ((nodes.map (·.2.2)).flatten) ∧
-    callEffects builderEnv Composite_decomposed [compSelf nodes] = decEffects nodes :=
-  BuilderSrc.decomposed_matches_source nodes
-
-end BuilderSourceTie
 
 end Qco.C03
